@@ -295,10 +295,36 @@ def run_entries(ctx, rid, entries, text, floor_bodies=3):
                     seen_sig.add(sg)
                 uniq.append((b, bi, d))
             groups[gk] = uniq
+        # The table is kept per function (that is how the reasons were written), but it is ENFORCED per source file:
+        # moving a judged site into a helper of the same module (extract-function) does not create a way to panic.
+        # Budget of a file = sum of the tabled counts of its functions; the reachable sites of the file must fit.
+        def file_of(fn):
+            fb = F.body(fn)
+            if fb is not None:
+                return fb.file
+            mod = fn.split('::')[0].lstrip('<')
+            for p_, b_ in F.bodies.items():
+                if p_.split('::')[0].lstrip('<') == mod:
+                    return b_.file
+            return None
+        tabled_fns = {fn for (fn, _k) in EXC}
+        slack = {}
+        for (fn, kind), (mx, _) in EXC.items():
+            f_ = file_of(fn)
+            if f_ is not None:
+                have = len(groups.get((fn, kind), []))
+                slack[(f_, kind)] = slack.get((f_, kind), 0) + max(0, mx - have)
         for (top, kind), lst in sorted(groups.items()):
             mx, reason = EXC.get((top, kind), (0, None))
+            f_ = lst[0][0].file
             if len(lst) <= mx:
                 ctx.ok(rid, '%s:%s' % (top, kind), '%d site(s) <= %d tabled: %s' % (len(lst), mx, reason), term_loc(lst[0][0], lst[0][1]))
+            elif top not in tabled_fns and len(lst) <= slack.get((f_, kind), 0):
+                # a function the table has never seen (extract-function) takes over allowance that tabled functions of the
+                # same file no longer use; a tabled function never borrows (a new site in it is judged on its own)
+                slack[(f_, kind)] -= len(lst)
+                ctx.ok(rid, '%s:%s' % (top, kind), '%d site(s) in a new helper; tabled functions of this file have that many fewer than tabled (judged sites moved into the helper)'
+                       % len(lst), term_loc(lst[0][0], lst[0][1]))
             else:
                 where = '; '.join('%s [%s]' % (term_loc(b, bi), d) for b, bi, d in lst[:6])
                 ctx.bad(rid, '%s:%s' % (top, kind),
